@@ -16,7 +16,7 @@ LEVEL_TEXT = ('Lean 4 theorems about an executable list model of Spectrum whose 
               'one value per wavelength) is preserved by crop/trim/pad/append/resample and by every history, also when an operation is refused; '
               'crop keeps exactly the closed range and is covariant under a change of unit (crop_scale_covariant); trim keeps first-to-last '
               'sample above tolerance; retained samples are unaltered; `integrate s a b` (the model of method="trapz"; the default "simps" is not modelled) is linear in the values and additive at a sample '
-              '(integrate_linear, integrate_additive_at_sample) and exact for piecewise-linear data (trapz_exact_piecewise_linear, integrate_exact_piecewise_linear: equal to the sum over segments of the increments of a primitive of each segment\'s line; trapz_exact_linear_segment for one global line); both rules return one bin per centre (bin_length); trapezoid bins of a non-negative spectrum are non-negative (bin_trapz_nonneg, about `bin` itself), exact for a spectrum whose samples lie on ONE line with all bin edges inside the sampled range (bin_trapz_exact_linear; the piecewise-linear-per-bin case is oracle-only); Simpson bins with symmetric ends are non-negative (bin_simps_nonneg_symmetric); with power preservation the TRAPEZOID bins sum to the trapezoid `integrate` over the centres\' span (bin_preserve_power_sum) and bins normalised by a supplied integral I sum to I for either rule (bin_preserve_power_sum_given); '
+              '(integrate_linear, integrate_additive_at_sample) and exact for piecewise-linear data (trapz_exact_piecewise_linear, integrate_exact_piecewise_linear: equal to the sum over segments of the increments of a primitive of each segment\'s line; trapz_exact_linear_segment for one global line); both rules return one bin per centre (bin_length); trapezoid bins of a non-negative spectrum are non-negative (bin_trapz_nonneg, about `bin` itself), exact for a spectrum whose samples lie on ONE line with all bin edges inside the sampled range (bin_trapz_exact_linear) and, per bin, whenever the two edges of the bin lie in one data segment — the spectrum is linear across that bin, whatever it does elsewhere — the bin is the exact integral of the line of that segment (bin_trapz_exact_per_bin); Simpson bins with symmetric ends are non-negative (bin_simps_nonneg_symmetric); with power preservation the TRAPEZOID bins sum to the trapezoid `integrate` over the centres\' span (bin_preserve_power_sum) and bins normalised by a supplied integral I sum to I for either rule (bin_preserve_power_sum_given); '
               ' refusals leave the spectrum (append/resample/trim/pad) or an emptied grid (crop).')
 LEVEL_NOTE = ('partial: non-negativity of Simpson bins for ends="inside" / integer-dtype centres / under preserve_power, exactness of Simpson bins '
               'and every scipy.integrate.simpson clause are oracle-only. Open known finding KF-C15-bin-integer-centres. '
@@ -33,8 +33,7 @@ RULE = ('streams: histories, integrate, setvalue (sample/bin, assign `value`/`wa
 TRUSTED = ['scipy.interpolate.interp1d(kind="linear", bounds_error=False, fill_value=…) is the piecewise-linear interpolant with fill',
            'np.linspace(a,b,n)[i] = a + i(b-a)/(n-1); np.delete/np.where/np.append/np.hstack semantics; np.trapz',
            'scipy.integrate.simpson (used by integrate(method="simps") and by preserve_power with simps) is taken from the implementation']
-UNPROVEN = ['exactness of bins for spectra that are linear across each bin but not globally (knots on bin edges): oracle only',
-            'integrate theorems (linearity, additivity at a sample, piecewise-linear exactness) are about method="trapz"; the DEFAULT method "simps" (scipy.integrate.simpson) is not modelled: oracle/implementation only, also inside preserve_power for Simpson bins',
+UNPROVEN = [            'integrate theorems (linearity, additivity at a sample, piecewise-linear exactness) are about method="trapz"; the DEFAULT method "simps" (scipy.integrate.simpson) is not modelled: oracle/implementation only, also inside preserve_power for Simpson bins',
             'non-negativity of Simpson bins for ends="inside", integer-dtype centres, or with preserve_power (symmetric ends without it: bin_simps_nonneg_symmetric)',
             'Simpson binning with integer-dtype centres (open known finding KF-C15-bin-integer-centres: mid-points truncated)',
             'Simpson bins: exactness for linear spectra on uniform centres (oracle only)',
